@@ -1272,7 +1272,7 @@ def replay(ctx, path):
 # ------------------------------------------------------------------ C19: a quick-sized stream for the configuration replay
 def c19_stream():
     """(harness, driver, fn, uses_bash) for props/C19.py: fn(ctx, exe, w) -> op lines.  The stream is the staged quick
-    generator thinned to well under 1500 ops (the Lean affine arithmetic is slow and C19 runs the driver in one process);
+    generator thinned to about 700 ops (the Lean affine arithmetic is slow and C19 runs the driver in one process);
     later stages are built from the outputs of `exe` (the reference build).  Kept on purpose: every op family on every
     parameter set at least once, BOTH sides of every DH / MTI pair (incl. pfok l = 2462, where a word-size dependent
     Montgomery constant would show), dstu signatures of minimal and larger ld with their padding alterations.
@@ -1302,9 +1302,12 @@ def c19_stream():
                 if fam == "dstu.sign" and "cv" in m and "ld" in m:
                     cls = (cls, "min" if m["ld"] == 16 * m["cv"].oo else "larger")
                 key = (fam, si, cls, m.get("side"))
-                keep_all = fam in ("pfok.dh", "pfok.mti") or m.get("genuine") or fam.endswith(".params") or \
-                    fam in ("dstu.pgen", "dstu.sign", "g12.sign", "b96.sign", "b96.sign2", "dstu.comp", "dstu.kgen")
-                if keep_all or key not in seen or rng.random() < fr:
+                keep_all = fam in ("pfok.dh", "pfok.mti", "dstu.pgen", "b96.sign", "b96.sign2") or fam.endswith(".params") or \
+                    (m.get("genuine") and rng.random() < 0.5) or (fam in ("dstu.sign", "g12.sign") and rng.random() < 0.35)
+                first = key not in seen
+                if first and fam in ("dstu.vfy", "g12.vfy") and si not in ("0", "2", "4") and not m.get("genuine") and rng.random() < 0.5:
+                    first = False       # altered verifications: every class on sets 0, 2, 4, every second class elsewhere
+                if keep_all or first or rng.random() < fr:
                     ko.append(o)
                     km.append(m)
                 seen.add(key)
